@@ -147,7 +147,7 @@ def loopFuelDefault : Nat := 100000
 def run (p : Parsed) (evs : List (List Event)) (caller : Option Str) (hasParent : Bool) : String :=
   let ops := fullOps p.tables
   let env := toEnv ops p.regions caller
-  match interpret env p.doc caller hasParent ({} : St) evs macroFuelDefault ((evs.foldl (fun n b => n + b.length + 1) 0) * 4 + 48) with
+  match interpret env p.doc caller hasParent ({} : St) evs macroFuelDefault ((evs.foldl (fun n b => n + b.length + 1) 0) + 24) with
   | none => ". diverged"
   | some (s, blocked) => showTrace s.trace ++ (if blocked then " blocked" else " done")
 
@@ -166,6 +166,10 @@ def handle : List String → String
     match parseDoc doc, (cfg.splitOn ";").mapM natList with
     | some p, some cs => String.ofList (cs.map fun c => if legalB p.doc c then '1' else '0')
     | _, _ => "bad-op"
+  | ["conformant", doc] =>
+    match parseDoc doc with
+    | some p => if conformantB p.doc then "1" else "0"
+    | none => "bad-op"
   | _ => "bad-op"
 
 end Driver.Int
